@@ -94,7 +94,7 @@ func genC10(t *rapid.T) c10Case {
 	c := c10Case{Prog: g.p}
 	n := rapid.IntRange(3, 8).Draw(t, "ntemplates")
 	for i := 0; i < n; i++ {
-		kind := rapid.SampledFrom([]string{"ordinary", "failing", "failing", "probing", "probing", "embprobe", "returning", "nested-ranges", "trying", "publishing", "relinclude", "positional", "ptrmethod", "mapbuilder", "swallowing"}).Draw(t, "kind")
+		kind := rapid.SampledFrom([]string{"ordinary", "failing", "failing", "probing", "probing", "embprobe", "returning", "nested-ranges", "trying", "publishing", "relinclude", "positional", "ptrmethod", "mapbuilder", "swallowing", "bumping"}).Draw(t, "kind")
 		path := c10EntryPath(i, kind)
 		var body []*mj.Node
 		rt := mj.Print(mj.Call("rtprobe"))
@@ -115,6 +115,10 @@ func genC10(t *rapid.T) c10Case {
 				inner = []*mj.Node{{K: "try", Body: g.path(1, inner), HasCatch: true, Catch: []*mj.Node{mj.Text("(caught)")}}}
 			}
 			body = g.path(depth, inner)
+		case "bumping":
+			// a counter initialised from a literal and incremented by a Go helper: every execution starts from the literal
+			body = []*mj.Node{mj.Let("count", mj.Num(float64(rapid.IntRange(0, 2).Draw(t, "bumpFrom")))), mj.Print(mj.Call("bump", mj.Str("count"))), mj.Text("(count="), mj.Print(mj.Var("count")), mj.Text(")"),
+				mj.Let("word", mj.Str("w")), mj.Text("(word="), mj.Print(mj.Var("word")), mj.Text(")")}
 		case "swallowing":
 			// the execution succeeds although something failed on the way: isset() asked for a member of what a
 			// template returns, and that template failed below constructs that had opened scopes / rebound '.'
@@ -470,6 +474,14 @@ func judgeC10(c c10Case) (v core.Verdict) {
 		}
 		m, discard := mj.ModelRun(&p, func(in *mj.Interp) {
 			c18ModelSetup(in)
+			in.Funcs["bump"] = func(in *mj.Interp, a []interface{}) interface{} {
+				if v, ok := in.APIResolve(a[0].(string)); ok {
+					if f, isF := v.(float64); isF {
+						in.APISet(a[0].(string), f+1)
+					}
+				}
+				return nil
+			}
 			in.Funcs["rtprobe"] = func(*mj.Interp, []interface{}) interface{} { return nil }
 		})
 		if discard == "" && m.Err == nil && m.Out != want[i].Out {
